@@ -343,4 +343,23 @@ PROPS = {
             fuzz("c11", "FuzzClientBytes", secs=240),
         ],
     },
+    "C10": {
+        "level": "fault_enumeration",
+        "rule": "9 client programs covering every command kind (LOGIN with synchronising literals, AUTHENTICATE, SELECT, LIST+STATUS, STATUS, "
+                "NAMESPACE, FETCH consumed by Collect / by manual Next+Read / closed unread, UID SEARCH, STORE, COPY, MOVE, EXPUNGE, "
+                "UNSELECT, APPEND with synchronising and non-synchronising literal, IDLE..DONE, 5 pipelined commands, CREATE/RENAME/"
+                "SUBSCRIBE/ENABLE/CAPABILITY/DELETE, LOGOUT) are recorded against a real imapserver with a stub backend; the recorded "
+                "server byte stream is replayed to a fresh client through a fault connection that preserves causality (a server byte "
+                "becomes readable once the client has written what preceded it) and injects, after EVERY byte offset, each of: EOF, a "
+                "read error, a write error on the client's next write, a stall (the client's armed read deadline fires in virtual "
+                "time; with no deadline armed the harness calls Client.Close as the caller would). Oracle: every blocking call of "
+                "the program returns, Client.Close returns, no imapclient goroutine survives, and a call whose tagged completion was "
+                "not fully delivered returns an error. Exhaustive over offsets x faults per transcript. Non-trivial: every "
+                "(program, shard) enumeration; evidence counts transcripts, offsets and offsets strictly inside literals.",
+        "assumptions": ["'returns' means within 6 s of wall clock on in-memory I/O with virtual deadlines (normal latency: microseconds); a failure report carries the goroutine dump",
+                        "STARTTLS and multi-step SASL exchanges are not in the corpus (the server under test answers AUTHENTICATE PLAIN with SASL-IR in one step)"],
+        "units": [
+            plain("c10", "TestEnumFaults", shards_q=10, shards_t=15),
+        ],
+    },
 }
